@@ -141,7 +141,7 @@ class SpecEval:
                ast.Mod: "%", ast.Div: "/"}
 
     def ev_BinOp(self, n):
-        a, b = self.ev(n.left), self.ev(n.right)
+        a, b = self.deref(self.ev(n.left)), self.deref(self.ev(n.right))
         op = self._binops.get(type(n.op))
         if op is None:
             raise Unsupported("binop in contract")
@@ -168,15 +168,19 @@ class SpecEval:
 
     def deref(self, v: V) -> V:
         """Mutable containers become pure values in the *current evaluation state*."""
+        st = getattr(v, "_st", None) or self.st
         if is_listlike(v.ty) and v.ty.kind != "seq":
-            return self.st.list_get(v)
+            return st.list_get(v)
         if is_dictlike(v.ty):
-            dom, val = self.st.dict_get(v)
+            dom, val = st.dict_get(v)
             kt, vt = dict_tys(v.ty)
             return ops.mk_dictv(kt, vt, dom, val)
         if v.ty.kind == "set":
-            return ops.mk_setv(v.ty.args[0], self.st.set_get(v))
+            return ops.mk_setv(v.ty.args[0], st.set_get(v))
         return v
+
+    def seq(self, v: V) -> V:
+        return ops.as_seq(self.st, self.deref(v))
 
     def ev_Subscript(self, n):
         base = self.ev(n.value)
@@ -186,6 +190,7 @@ class SpecEval:
                 return base.items[sl.value]
             raise Unsupported("tuple index in contract")
         if is_dictlike(base.ty) or base.ty.kind == "dictv":
+            base = self.deref(base)
             (dom, val), kt = ops.dict_parts(self.st, base)
             k = coerce(self.ev(sl), kt)
             vt = dict_tys(base.ty)[1] if base.ty.kind != "dictv" else base.ty.args[1]
@@ -199,7 +204,7 @@ class SpecEval:
             i = self.ev(sl).t
             i = ops.norm_index(z3.Length(t), i)
             return V(base.ty, z3.SubString(t, i, 1))
-        s = ops.as_seq(self.st, base)
+        s = self.seq(base)
         if s.t is None:
             raise Unsupported("indexing an empty literal")
         if isinstance(sl, ast.Slice):
@@ -216,7 +221,11 @@ class SpecEval:
             if name == "old":
                 o = self.in_old()
                 v = o.ev(n.args[0])
-                return o.deref(v) if self._container(v) else v
+                if self._container(v):
+                    v2 = V(v.ty, v.t, v.items, v.isnone, v.val, v.py)
+                    v2._st = o.st          # read its content in the pre-state
+                    return v2
+                return v
             if name in ("forall", "exists"):
                 return self.quant(name, n)
             if name in SPECFUNS:
@@ -229,7 +238,7 @@ class SpecEval:
                     return V(INT, z3.Length(v.t))
                 if v.ty.kind == "tuple":
                     return vint(len(v.items))
-                s = ops.as_seq(self.st, v)
+                s = self.seq(v)
                 return V(INT, z3.IntVal(0) if s.t is None else z3.Length(s.t))
             raise Unsupported("spec function %r" % name)
         if isinstance(n.func, ast.Attribute):
@@ -246,6 +255,8 @@ class SpecEval:
         if k == "str":
             return str_method(self.st, recv, name, args)
         if (is_dictlike(recv.ty) or k == "dictv") and name == "get":
+            recv = self.deref(recv)
+            k = recv.ty.kind
             (dom, val), kt = ops.dict_parts(self.st, recv)
             vt = dict_tys(recv.ty)[1] if k != "dictv" else recv.ty.args[1]
             key = coerce(args[0], kt)
@@ -312,8 +323,13 @@ def ite(st, c, a: V, b: V) -> V:
 # ---------------------------------------------------------------------------
 # string methods (shared with the code executor)
 
+def unopt(v: V) -> V:
+    return v.val if v.ty.kind == "opt" else v
+
+
 def str_method(st, recv: V, name: str, args) -> V:
     t = recv.t
+    args = [unopt(a) for a in args]
     if name == "startswith":
         return vbool(z3.PrefixOf(args[0].t, t))
     if name == "endswith":
@@ -401,7 +417,7 @@ def _allocated(se, a, kw):
     v = a[0]
     if v.ty.is_ref and not is_listlike(v.ty):
         return vbool(z3.And(v.t >= 0, v.t < se.st.alloc))
-    s = ops.as_seq(se.st, v)
+    s = se.seq(v)
     if s.t is None:
         return vbool(True)
     i = z3.Int("i!alloc")
@@ -411,7 +427,7 @@ def _allocated(se, a, kw):
 
 @specfun("distinct_elems")
 def _distinct(se, a, kw):
-    s = ops.as_seq(se.st, a[0])
+    s = se.seq(a[0])
     if s.t is None:
         return vbool(True)
     i, j = z3.Int("i!d"), z3.Int("j!d")
@@ -465,3 +481,60 @@ def _int_of(se, a, kw):
     if v.ty.kind == "bool":
         return V(INT, z3.If(v.t, 1, 0))
     return v
+
+
+@specfun("is_callable")
+def _is_callable(se, a, kw):
+    v = a[0]
+    if v.ty.kind in ("fun", "any", "writer"):
+        return vbool(z3.And(v.t != 0, ops.UF("is_callable", z3.IntSort(), z3.BoolSort())(v.t)))
+    return vbool(v.ty.kind in ("closure", "static", "class", "bound"))
+
+
+@specfun("str_join")
+def _str_join(se, a, kw):
+    s = se.seq(a[1])
+    if s.t is None:
+        return vstr("")
+    return V(STR, ops.UF("str_join", z3.StringSort(), z3.SeqSort(sort_of(s.ty.args[0])), z3.StringSort())(a[0].t, s.t))
+
+
+@specfun("str_encode")
+def _str_encode(se, a, kw):
+    enc = a[1].val.t if a[1].ty.kind == "opt" else a[1].t
+    return V(BYTES, ops.UF("str_encode", z3.StringSort(), z3.StringSort(), z3.StringSort(), z3.StringSort())(a[0].t, enc, a[2].t))
+
+
+@specfun("prefix_of")
+def _prefix_of(se, a, kw):
+    x, y = se.seq(a[0]), se.seq(a[1])
+    if x.t is None:
+        return vbool(True)
+    return vbool(z3.PrefixOf(x.t, y.t))
+
+
+def _field_fun(field, cls):
+    def f(se, a, kw):
+        fty, owner = S.find_field(cls, field)
+        return se.st._read(se.st._fkey(owner, field), fty, a[0].t)
+    return f
+
+
+SPECFUNS["bufdata"] = _field_fun("data", "FastEncodingBuffer")
+SPECFUNS["bufwrite"] = _field_fun("write", "FastEncodingBuffer")
+SPECFUNS["bufenc"] = _field_fun("encoding", "FastEncodingBuffer")
+
+
+@specfun("is_sized")
+def _is_sized(se, a, kw):
+    return vbool(ops.UF("is_sized", z3.IntSort(), z3.BoolSort())(a[0].t))
+
+
+@specfun("len_of")
+def _len_of(se, a, kw):
+    return V(INT, ops.UF("len_of", z3.IntSort(), z3.IntSort())(a[0].t))
+
+
+SPECFUNS["lc_index"] = _field_fun("index", "LoopContext")
+SPECFUNS["lc_parent"] = _field_fun("parent", "LoopContext")
+SPECFUNS["lc_iterable"] = _field_fun("_iterable", "LoopContext")
